@@ -1,2 +1,184 @@
+/-
+Helper lemmas for C17: the two phases of the initial step-size search
+(`searchLoop`, model of `_find_and_set_init_step_size`) over any linearly ordered `K`.
+-/
 import MiciVerif.Model.Adapters
 import Mathlib.Order.Basic
+import Mathlib.Order.Defs.LinearOrder
+import Mathlib.Tactic.Push
+
+namespace MiciVerif.Adapters
+variable {K : Type} [LinearOrder K]
+
+/-- "step size `2^e` is too big" for the oracle `dH` and threshold `thr`. -/
+def tb (dH : Int → Outcome K) (thr : K) (e : Int) : Bool := (dH e).tooBig thr
+
+/-- Halving phase (`step_size_too_big = True`, not the first iteration): the loop returns
+the first exponent at or below `e` that is not too big, and fails only if the `fuel`
+exponents `e, e-1, …` are all too big. -/
+theorem search_down (dH : Int → Outcome K) (thr : K) : ∀ (fuel : Nat) (e : Int),
+    (∀ r, searchLoop dH thr fuel false e true = .ok r →
+      r ≤ e ∧ tb dH thr r = false ∧ ∀ j, r < j → j ≤ e → tb dH thr j = true) ∧
+    (∀ er, searchLoop dH thr fuel false e true = .error er →
+      er = .noInitStepSize ∧ ∀ j, e - (fuel : Int) < j → j ≤ e → tb dH thr j = true) := by
+  intro fuel
+  induction fuel with
+  | zero =>
+    intro e
+    refine ⟨fun r h => by simp [searchLoop] at h, fun er h => ?_⟩
+    simp only [searchLoop, Except.error.injEq] at h
+    exact ⟨h.symm, fun j h1 h2 => by omega⟩
+  | succ fuel ih =>
+    intro e
+    have step : ∀ (_ : tb dH thr e = true),
+        (∀ r, searchLoop dH thr fuel false (e - 1) true = .ok r →
+          r ≤ e ∧ tb dH thr r = false ∧ ∀ j, r < j → j ≤ e → tb dH thr j = true) ∧
+        (∀ er, searchLoop dH thr fuel false (e - 1) true = .error er →
+          er = .noInitStepSize ∧
+            ∀ j, e - ((fuel + 1 : Nat) : Int) < j → j ≤ e → tb dH thr j = true) := by
+      intro hte
+      obtain ⟨i1, i2⟩ := ih (e - 1)
+      refine ⟨fun r h => ?_, fun er h => ?_⟩
+      · obtain ⟨a, b, c⟩ := i1 r h
+        refine ⟨by omega, b, fun j h1 h2 => ?_⟩
+        by_cases hj : j = e
+        · rw [hj]; exact hte
+        · exact c j h1 (by omega)
+      · obtain ⟨a, c⟩ := i2 er h
+        refine ⟨a, fun j h1 h2 => ?_⟩
+        by_cases hj : j = e
+        · rw [hj]; exact hte
+        · exact c j (by push_cast at h1; omega) (by omega)
+    cases hd : dH e with
+    | err => simpa [searchLoop, hd] using step (by simp [tb, hd, Outcome.tooBig])
+    | nan => simpa [searchLoop, hd] using step (by simp [tb, hd, Outcome.tooBig])
+    | inf => simpa [searchLoop, hd] using step (by simp [tb, hd, Outcome.tooBig])
+    | val q =>
+      by_cases hq : q ≤ thr
+      · have hnt : tb dH thr e = false := by simp [tb, hd, Outcome.tooBig, hq]
+        refine ⟨fun r h => ?_, fun er h => ?_⟩
+        · simp only [searchLoop, hd, hq] at h
+          simp at h
+          subst h
+          exact ⟨Int.le_refl _, hnt, fun j h1 h2 => by omega⟩
+        · simp only [searchLoop, hd, hq] at h
+          simp at h
+      · have hlt : thr < q := lt_of_not_ge hq
+        have hs := step (by simp [tb, hd, Outcome.tooBig, hlt])
+        simpa [searchLoop, hd, hq] using hs
+
+/-- Doubling phase (`step_size_too_big = False`, reached from `e - 1` which was not too big):
+the loop returns either the first too-big exponent `r ≥ e` when the step there succeeds with a
+finite or infinite `delta_h > thr` (A), or `r = f - 1` where `f ≥ e` is the first too-big
+exponent and the step at `f` failed or gave NaN (B). -/
+theorem search_up (dH : Int → Outcome K) (thr : K) : ∀ (fuel : Nat) (e : Int),
+    tb dH thr (e - 1) = false →
+    (∀ r, searchLoop dH thr fuel false e false = .ok r →
+      (e ≤ r ∧ (dH r = .inf ∨ ∃ q, dH r = .val q ∧ thr < q) ∧
+        ∀ j, e - 1 ≤ j → j < r → tb dH thr j = false) ∨
+      (e - 1 ≤ r ∧ tb dH thr (r + 1) = true ∧ ∀ j, e - 1 ≤ j → j ≤ r → tb dH thr j = false)) ∧
+    (∀ er, searchLoop dH thr fuel false e false = .error er →
+      er = .noInitStepSize ∧
+        ∀ j, e - 1 ≤ j → j < e + (fuel : Int) - 1 → tb dH thr j = false) := by
+  intro fuel
+  induction fuel with
+  | zero =>
+    intro e he
+    refine ⟨fun r h => by simp [searchLoop] at h, fun er h => ?_⟩
+    simp only [searchLoop, Except.error.injEq] at h
+    exact ⟨h.symm, fun j h1 h2 => by omega⟩
+  | succ fuel ih =>
+    intro e he
+    -- a failed / NaN step at `e`: back to `e - 1`, which is returned at once
+    have fail : ∀ (_ : tb dH thr e = true),
+        (∀ r, searchLoop dH thr fuel false (e - 1) true = .ok r →
+          (e ≤ r ∧ (dH r = .inf ∨ ∃ q, dH r = .val q ∧ thr < q) ∧
+            ∀ j, e - 1 ≤ j → j < r → tb dH thr j = false) ∨
+          (e - 1 ≤ r ∧ tb dH thr (r + 1) = true ∧
+            ∀ j, e - 1 ≤ j → j ≤ r → tb dH thr j = false)) ∧
+        (∀ er, searchLoop dH thr fuel false (e - 1) true = .error er →
+          er = .noInitStepSize ∧
+            ∀ j, e - 1 ≤ j → j < e + ((fuel + 1 : Nat) : Int) - 1 → tb dH thr j = false) := by
+      intro hte
+      obtain ⟨d1, d2⟩ := search_down dH thr fuel (e - 1)
+      refine ⟨fun r h => ?_, fun er h => ?_⟩
+      · obtain ⟨a, b, c⟩ := d1 r h
+        have hr : r = e - 1 := by
+          by_contra hne
+          have := c (e - 1) (by omega) (Int.le_refl _)
+          rw [he] at this; exact Bool.false_ne_true this
+        right
+        subst hr
+        refine ⟨Int.le_refl _, by simpa using hte, fun j h1 h2 => ?_⟩
+        have : j = e - 1 := by omega
+        rw [this]; exact he
+      · obtain ⟨a, c⟩ := d2 er h
+        refine ⟨a, fun j h1 h2 => ?_⟩
+        by_cases hf : fuel = 0
+        · subst hf
+          have : j = e - 1 := by push_cast at h2; omega
+          rw [this]; exact he
+        · have := c (e - 1) (by omega) (Int.le_refl _)
+          rw [he] at this; exact absurd this Bool.false_ne_true
+    cases hd : dH e with
+    | err => simpa [searchLoop, hd] using fail (by simp [tb, hd, Outcome.tooBig])
+    | nan => simpa [searchLoop, hd] using fail (by simp [tb, hd, Outcome.tooBig])
+    | inf =>
+      refine ⟨fun r h => ?_, fun er h => ?_⟩
+      · simp [searchLoop, hd] at h
+        subst h
+        left
+        refine ⟨Int.le_refl _, Or.inl hd, fun j h1 h2 => ?_⟩
+        have : j = e - 1 := by omega
+        rw [this]; exact he
+      · simp [searchLoop, hd] at h
+    | val q =>
+      by_cases hq : thr < q
+      · refine ⟨fun r h => ?_, fun er h => ?_⟩
+        · simp [searchLoop, hd, hq] at h
+          subst h
+          left
+          refine ⟨Int.le_refl _, Or.inr ⟨q, hd, hq⟩, fun j h1 h2 => ?_⟩
+          have : j = e - 1 := by omega
+          rw [this]; exact he
+        · simp [searchLoop, hd, hq] at h
+      · have hte : tb dH thr e = false := by simp [tb, hd, Outcome.tooBig, hq]
+        obtain ⟨u1, u2⟩ := ih (e + 1) (by simpa using hte)
+        refine ⟨fun r h => ?_, fun er h => ?_⟩
+        · simp only [searchLoop, hd, hq] at h
+          simp at h
+          rcases u1 r h with ⟨a, b, c⟩ | ⟨a, b, c⟩
+          · left
+            refine ⟨by omega, b, fun j h1 h2 => ?_⟩
+            by_cases hj : j = e - 1
+            · rw [hj]; exact he
+            · exact c j (by omega) h2
+          · right
+            refine ⟨by omega, b, fun j h1 h2 => ?_⟩
+            by_cases hj : j = e - 1
+            · rw [hj]; exact he
+            · exact c j (by omega) h2
+        · simp only [searchLoop, hd, hq] at h
+          simp at h
+          obtain ⟨a, c⟩ := u2 er h
+          refine ⟨a, fun j h1 h2 => ?_⟩
+          by_cases hj : j = e - 1
+          · rw [hj]; exact he
+          · exact c j (by omega) (by push_cast at h2; omega)
+
+/-- The first iteration (`s == 0`) never returns: it only fixes the direction. -/
+theorem search_first (dH : Int → Outcome K) (thr : K) (fuel : Nat) :
+    searchLoop dH thr (fuel + 1) true 0 false =
+      if tb dH thr 0 then searchLoop dH thr fuel false (-1) true
+      else searchLoop dH thr fuel false 1 false := by
+  cases hd : dH 0 with
+  | err => simp [searchLoop, hd, tb, Outcome.tooBig]
+  | nan => simp [searchLoop, hd, tb, Outcome.tooBig]
+  | inf => simp [searchLoop, hd, tb, Outcome.tooBig]
+  | val q =>
+    by_cases hq : thr < q
+    · have : ¬ q ≤ thr := not_le.mpr hq
+      simp [searchLoop, hd, tb, Outcome.tooBig, hq, this]
+    · simp [searchLoop, hd, tb, Outcome.tooBig, hq]
+
+end MiciVerif.Adapters
